@@ -31,6 +31,22 @@ claimed = {
    text="Bounded-exhaustive enumeration of messages (one-factor over full field alphabets + full product of reduced alphabets) and of frame sequences x chunkings per protocol, compared field by field with a reference model, including size stability.",
    note="Values outside the alphabets are not covered; http and thrift-struct protocols not covered; three edge cases are known findings.",
    technique="bounded-exhaustive enumeration against a reference model (no sampling)"),
+ "C10": dict(category="exploration", design="DESIGN.md §3 C10",
+   text="Both mappers are evaluated on every identifier up to the length bound (totality, determinism, agreement with a reference on the documented sub-language, README table verbatim); dispatch is checked on live sessions for every ordered pair of a 10-element registration zoo under every group nesting, both mappers, with and without unknown-handlers, requesting every returned name and its near-misses as CALL and PUSH.",
+   note="The registration zoo is compiled into the harness; names outside it are covered only through the mapper enumeration.",
+   technique="bounded-exhaustive enumeration against a reference model; live dispatch under the controlled scheduler (all non-preemptive schedules)"),
+ "C11": dict(category="exploration", design="DESIGN.md §3 C11",
+   text="Per codec: round trip of a compiled type zoo over boundary values with reflect.DeepEqual; decoder totality on every byte string up to the length bound over a per-codec alphabet and on every prefix / single-byte mutation of valid encodings, into every destination type, with guard bytes.",
+   note="Bounded strings and structured mutations only (not the unbounded input space); domain limits listed in scen/c11.go.",
+   technique="bounded-exhaustive enumeration against reflect.DeepEqual / totality oracles"),
+ "C12": dict(category="exploration", design="DESIGN.md §3 C12",
+   text="Every pipe over the registered filters up to the length bound (plus lengths 254-256) x payload set inverts exactly; every single-byte corruption, truncation and extension of md5-packed payloads is rejected; unregistered ids are refused by Append and by Unpack; on live sessions the reply frame carries the caller's pipe for 6 pipes x 4 protocols x handler success/failure.",
+   note="Filters registered in the harness: gzip and md5.",
+   technique="bounded-exhaustive enumeration + live-session check under the controlled scheduler"),
+ "C20": dict(category="model_checking", design="DESIGN.md §3 C20",
+   text="Differential enumeration of all first-user operation sequences up to the depth bound on Message, Args, pooled Socket and the handler context, followed by release/re-acquire (identity asserted under the LIFO pool) and every second-user sequence up to length 2; observable state and packed/reply bytes are compared with a fresh object.",
+   note="Trusted base: vinstr + shims (LIFO pool guarantees the reuse actually happens).",
+   technique="explicit-state enumeration of operation histories on the implementation with a differential (recycled vs fresh) oracle"),
 }
 pending = {}
 for i in range(1, 21):
